@@ -330,6 +330,28 @@ pub fn inputs_c17(r: &mut Rng, n: usize, _tier: &str, out: &mut dyn Write) {
         "to_jde_tai_seconds", "to_jde_utc_days", "to_jde_utc_seconds", "to_tt_seconds", "to_tt_days", "to_tt_centuries_j2k",
         "to_jde_tt_days", "to_mjd_tt_days", "to_unix_seconds", "to_unix_milliseconds", "to_unix_days", "to_tai_seconds",
         "to_tai_days", "to_utc_seconds", "to_utc_days", "to_gpst_seconds", "to_gpst_days"];
+    // boundary block: every UTC-dependent view in the last 37 s before and the first seconds after each
+    // leap second, the instant expressed in a rotating scale (a seeded change made the UNIX views one
+    // second low in exactly that window and only 13 of 20 000 random cases fell into it)
+    let mut n = n;
+    if n >= 5000 {
+        const UTCV: [&str; 9] = ["to_unix_seconds", "to_unix_milliseconds", "to_unix_days", "to_utc_seconds", "to_utc_days",
+            "to_mjd_utc_days", "to_mjd_utc_seconds", "to_jde_utc_days", "to_jde_utc_seconds"];
+        let mut k = 0usize;
+        for (t, d) in leap_ts() {
+            for acc in UTCV {
+                for off in [-36i128, -20, -10, -1, 0, 1] {
+                    let ts = NONDYN[k % NONDYN.len()];
+                    k += 1;
+                    // TAI count of the instant `off` seconds from the first instant after the inserted second
+                    let tai = (t + d + off) * SEC + r.below(SEC as u64) as i128;
+                    let e = if ts == "UTC" { (t + off) * SEC + r.below(SEC as u64) as i128 } else { tai - ref_off(ts) };
+                    writeln!(out, "accf {} {}:{}", acc, dstr(e), ts).unwrap();
+                    n -= 1;
+                }
+            }
+        }
+    }
     for _ in 0..n {
         let ts = *r.pick(&NONDYN);
         // within +/- 10 000 years of 1900
